@@ -263,12 +263,16 @@ impl<'a, SE: brush_core::ShellExtensions> Highlighter<'a, SE> {
             | brush_parser::word::WordPiece::TildeExpansion(_) => {
                 self.append_span(HighlightKind::Parameter, piece.clone());
             }
-            brush_parser::word::WordPiece::BackquotedCommandSubstitution(command) => {
+            brush_parser::word::WordPiece::BackquotedCommandSubstitution(_) => {
                 self.set_next_missing_kind(HighlightKind::CommandSubstitution);
-                self.highlight_program(
-                    command.as_str(),
-                    piece.start + 1, /* opening backtick */
-                );
+                // Highlight the raw text between the backquotes, not the parsed command: the
+                // word parser unescapes `\`` in the latter, so offsets into it no longer map
+                // onto the line; offsets into the raw slice do.
+                let input_line = self.input_line;
+                let raw_command = input_line
+                    .get((piece.start + 1)..piece.end.saturating_sub(1))
+                    .unwrap_or_default();
+                self.highlight_program(raw_command, piece.start + 1 /* opening backtick */);
                 self.set_next_missing_kind(HighlightKind::CommandSubstitution);
             }
             brush_parser::word::WordPiece::CommandSubstitution(command) => {
@@ -600,6 +604,17 @@ mod tests {
             "cat <<A <<B\na\nA\nb\nB\n",
             "cat <<-EOF | wc\n\tx\nEOF",
         ] {
+            let highlighted = highlight_command(&shell, line, line.len());
+            assert_spans_are_valid(&highlighted);
+        }
+    }
+
+    #[tokio::test]
+    async fn test_highlight_escaped_backquote_then_multibyte() {
+        // `\`` inside a backquoted substitution is unescaped by the word parser; offsets must
+        // still be computed against the raw line.
+        let shell = brush_core::Shell::builder().build().await.unwrap();
+        for line in ["echo `\\`é`", "x `\\`é\\``", "`echo \\`echo 爸\\` 爸` 爸"] {
             let highlighted = highlight_command(&shell, line, line.len());
             assert_spans_are_valid(&highlighted);
         }
